@@ -65,6 +65,24 @@ def maps(ctx, out):
         pos += len(ticks)
         try:
             be = C01.build_bpm_events(res, tempo)
+            if ci % 7 == 3 and len(tempo) >= 2 and len({t for t, _ in tempo}) == len(tempo):
+                # the same map grown in the caller's hands: the public container over the caller's own list holding the first event only,
+                # one query, then the remaining events appended one by one (each built from its predecessor by the public factory)
+                from chartparse.sync import BPMEvent, BPMEvents
+                mine = [be.events[0]]
+                grown = BPMEvents(events=mine, resolution=be.resolution)
+                grown.timestamp_at_tick(ticks[-1])
+                grown.timestamp_at_tick_no_optimize_return(0)
+                for t_, n_ in tempo[1:]:
+                    mine.append(BPMEvent.from_parsed_data(BPMEvent.ParsedData(tick=t_, raw_bpm=str(n_)), mine[-1], be.resolution))
+                for tk in ticks:
+                    a_, b_ = be.timestamp_at_tick(tk), grown.timestamp_at_tick(tk)
+                    if a_ != b_:
+                        out.violation("grown-" + fw.h([res, tempo, tk]), f"a tempo map whose event list grew after its first query answers tick {tk} with {b_[0] // US} µs (index {b_[1]}), "
+                                      f"the same map built at once with {a_[0] // US} µs (index {a_[1]})", {"op": "sweep", "res": res, "tempo": tempo, "ticks": [tk], "grown": True},
+                                      observed=[b_[0] // US, b_[1]], promised=[a_[0] // US, a_[1]])
+                        break
+                be = grown
             ivals = []
             for tk in ticks:
                 ts, idx = be.timestamp_at_tick(tk)
